@@ -401,6 +401,14 @@ class FnTrans:
         if op == 'ptrtoint': return f"(({ct})(uintptr_t){v})"
         if op == 'inttoptr': return f"(({ct})(uintptr_t){v})"
         raise SyntaxError(op)
+    def size_is_multiple(s, szarg, sz):
+        """is the (symbolic) allocation size syntactically k * sizeof(element)?  looks at the defining mul/shl of the operand"""
+        d = s.sizedefs.get(szarg)
+        if not d: return False
+        op, k = d
+        if op == 'mul': return k % sz == 0
+        if op == 'shl': return (1 << k) % sz == 0
+        return False
     def define(s, name, ty):
         n = s.lname(name)
         s.vars[n] = s.em.ctype(ty)
@@ -652,6 +660,10 @@ class FnTrans:
                 else: ret(f"(({s.em.ctype(rty)})((({c}%{w})==0)?{b}:(({a} << ({w}-({c}%{w}))) | ({b} >> ({c}%{w})))))")
                 return
             raise SyntaxError("intrinsic " + cname)
+        # gdstk's allocator wrappers (separate functions in the -fno-inline module) are treated as the libc calls they forward to
+        if direct and cname in GDSTK_ALLOC and dst is not None and dst in s.alloc_types:
+            cname = GDSTK_ALLOC[cname]
+            if cname == 'calloc': av = ['1ULL'] + av
         if direct and cname in ('malloc', 'calloc', 'realloc') and dst is not None and dst in s.alloc_types:
             et = s.alloc_types[dst]; ct = s.em.ctype(et); sz = size_of(et)
             szarg = av[-1]
@@ -660,6 +672,8 @@ class FnTrans:
                 k = int(mm.group(1)) // sz
                 szx = f"sizeof({ct}) * {k}ULL" if k != 1 else f"sizeof({ct})"
                 ok = True
+            elif not mm and not s.size_is_multiple(szarg, sz):
+                ok = False          # e.g. a string buffer that is merely cast to T* (stored in an Array<T*>): keep it untyped
             elif not mm:
                 O(f"  IR_ASSERT(({szarg}) % {sz}ULL == 0, \"typed allocation: size multiple of element\");")
                 szx = f"sizeof({ct}) * (({szarg}) / {sz}ULL)"
@@ -695,12 +709,39 @@ class FnTrans:
             for (frm, to, fns) in s.em.shrink:
                 if fns and s.name not in fns: continue
                 blocks = [(bb, [re.sub(r'\[%d x i8\]' % frm, '[%d x i8]' % to, re.sub(r'\bi64 %d\b' % frm, 'i64 %d' % to, l)) for l in ls]) for bb, ls in blocks]
+        # Emit the blocks in reverse post-order of the CFG: every textual backward goto is then a genuine loop back edge.
+        # (LLVM's layout may put a loop latch before an inner loop; CBMC identifies loops by backward jumps and mis-unwinds
+        #  a jump from a later block into the middle of an earlier region - seen as a spurious unwinding-assertion failure.)
+        if len(blocks) > 2:
+            names = [bb for bb, _ in blocks]; idx = {bb: i for i, bb in enumerate(names)}
+            succ = {}
+            for bb, ls in blocks:
+                term = ls[-1] if ls else ''
+                succ[bb] = [t.strip('"') for t in re.findall(r'label %((?:"[^"]*"|[-\w$.]+))', term)] if term.startswith(('br ', 'switch ', 'invoke ', 'indirectbr ')) else []
+            seen_b = set(); post = []
+            stack = [(names[0], iter(succ[names[0]]))]; seen_b.add(names[0])
+            while stack:
+                node, it = stack[-1]
+                nxt = None
+                for t in it:
+                    if t in idx and t not in seen_b: nxt = t; break
+                if nxt is None: post.append(node); stack.pop()
+                else: seen_b.add(nxt); stack.append((nxt, iter(succ[nxt])))
+            order = post[::-1] + [bb for bb in names if bb not in seen_b]      # unreachable blocks (if any) keep their relative order at the end
+            bmap = dict(blocks); blocks = [(bb, bmap[bb]) for bb in order]
         # typed allocation: result of malloc/calloc/realloc whose only non-i8* bitcast goes to T*
         s.alloc_types = {}
+        s.sizedefs = {}
+        for bb, ls in blocks:
+            for l in ls:
+                mm = re.match(r'(%[-\w$.]+) = (mul|shl)(?: nuw| nsw)* i64 (%[-\w$.]+|\d+), (%[-\w$.]+|\d+)$', l)
+                if mm:
+                    c = mm.group(4) if mm.group(4).isdigit() else (mm.group(3) if mm.group(3).isdigit() and mm.group(2) == 'mul' else None)
+                    if c is not None: s.sizedefs[s.lname(unq(mm.group(1)))] = (mm.group(2), int(c))
         allocs = {}
         for bb, ls in blocks:
             for l in ls:
-                mm = re.match(r'(%[-\w$.]+) = (?:tail )?call .*@(malloc|calloc|realloc)\(', l)
+                mm = re.match(r'(%[-\w$.]+) = (?:tail )?call .*@(malloc|calloc|realloc|_ZN5gdstk8allocateEm|_ZN5gdstk14allocate_clearEm|_ZN5gdstk10reallocateEPvm)\(', l)
                 if mm: allocs[mm.group(1)] = set()
         if allocs:
             for bb, ls in blocks:
@@ -854,6 +895,7 @@ def parse_module(text):
         i += 1
     return m
 
+GDSTK_ALLOC = {'_ZN5gdstk8allocateEm': 'malloc', '_ZN5gdstk14allocate_clearEm': 'calloc', '_ZN5gdstk10reallocateEPvm': 'realloc'}
 LIBM = {'fabs', 'sqrt', 'floor', 'ceil', 'trunc', 'cos', 'sin', 'tan', 'acos', 'asin', 'atan', 'atan2', 'exp2', 'log2', 'pow',
         'fmod', 'llround', 'lround', 'round', 'exp', 'log', 'hypot', 'log10', 'cbrt', 'fmin', 'fmax'}
 KNOWN_LIBC = {'malloc', 'calloc', 'realloc', 'free', 'memcpy', 'memmove', 'memset', 'memcmp', 'strlen', 'strcmp', 'strncmp',
